@@ -66,11 +66,17 @@ func genC15(rt *rapid.T) *c15Case {
 	if total > 0 && rapid.IntRange(0, 9).Draw(rt, "inject") < 7 {
 		n := rapid.IntRange(0, total).Draw(rt, "n_fail")
 		idx := rapid.Permutation(seq(total)).Draw(rt, "fail_perm")
-		// one fault kind per case: a run owns exactly one sink and one source, so with a single kind every
-		// fired fault belongs to a different run and "fired" counts the failed runs exactly
+		// failures at different moments of the request: a failed first send ends a run at once, a failed k-th read
+		// ends it some polls later. A fired fault always belongs to a run of its own (the first one that fires
+		// ends the run, so a second fault on the same run never fires).
+		mixed := rapid.Bool().Draw(rt, "mixed_kinds")
 		onReads := rapid.Bool().Draw(rt, "fail_on_reads")
 		for i := 0; i < n; i++ {
-			if onReads {
+			r := onReads
+			if mixed {
+				r = rapid.Bool().Draw(rt, fmt.Sprintf("fail%d_on_read", i))
+			}
+			if r {
 				c.FailReads = append(c.FailReads, idx[i])
 			} else {
 				c.FailSinks = append(c.FailSinks, idx[i])
